@@ -77,4 +77,4 @@ func (env *SpecEnv) freshPred(name string, n *ast.CallExpr) (Val, bool) {
 	return Val{}, false
 }
 
-func cmdCheck(args []string) int { return 2 }
+
